@@ -109,7 +109,11 @@ class OracleFailure(BaseException):
     """the custom BaseException subclass used by the fault-injection oracle (C16)"""
 
 
-EXC = {"ValueError": ValueError, "KeyboardInterrupt": KeyboardInterrupt, "OracleFailure": OracleFailure}
+EXC = {"ValueError": ValueError, "KeyboardInterrupt": KeyboardInterrupt, "OracleFailure": OracleFailure,
+       # failures a numerical objective really produces, and control-flow exceptions an embedding application may raise
+       "ZeroDivisionError": ZeroDivisionError, "OverflowError": OverflowError, "FloatingPointError": FloatingPointError,
+       "RuntimeError": RuntimeError, "MemoryError": MemoryError, "StopIteration": StopIteration, "SystemExit": SystemExit,
+       "GeneratorExit": GeneratorExit, "AssertionError": AssertionError, "TypeError": TypeError, "IndexError": IndexError}
 
 
 # ---------------------------------------------------------------------------------------------
